@@ -255,7 +255,7 @@ def run(c):
             obs += observe(c.seed * 100 + s, 90, 4)
         compare(obs, "main")
     else:
-        compare(observe(c.seed, 70, 3), "main")
+        compare(observe(c.seed, 60, 3), "main")
 
     def search():
         obs = []
